@@ -68,7 +68,8 @@ def check(ctx, world, rounds=16):
     from ..terms import mk_app
     want = mk_app("Eq", (mk_app("pow", (syms["g"], syms["q"], syms["p"])), Const(1)))
     pcs = getattr(st, "all_ctor_pcs", None) or [getattr(st, "ctor_pc", [])]
-    okp = [any(t == want and pol is True for (t, pol, _) in pc) for pc in pcs]
+    from .c05 import has_eq
+    okp = [has_eq({(t, pol) for (t, pol, _) in pc}, want.args[0], want.args[1]) for pc in pcs]
     ok = all(okp)
     ctx.ob("N-ctor-assert", gsym.cls.name + ".__init__", ok,
            "every path through the constructor requires g^q = 1 (only generators whose order divides q are accepted)" if ok else
